@@ -240,6 +240,35 @@ fn run_declared_sizes() -> Sweep {
     })
 }
 
+/// Headers with entries behind the immutable region (the region trailer covers fewer entries than the index holds).
+pub fn run_dribble() -> Sweep {
+    let extras: Vec<Vec<(u32, Val)>> = vec![
+        vec![],
+        vec![(1008, Val::Int32(vec![0x0102_0304]))],
+        vec![(1008, Val::Int32(vec![1])), (1129, Val::Int32(vec![2, 3]))],
+        vec![(5000, Val::str("appended"))],
+        vec![(999, Val::Bin(vec![9, 8, 7])), (5001, Val::strs(&["a", "b"])), (5002, Val::Int64(vec![u64::MAX]))],
+    ];
+    let rad = [extras.len() as u64, extras.len() as u64, 3];
+    let n = product(&rad);
+    Sweep::new("region-dribble", "signature and main header built like rpm's (sorted entries, region entry and trailer) with 0–3 entries of various types appended behind the immutable region × 3 payloads: byte round trip and offsets".into(), n, move |i, acc| {
+        let d = decode(i, &rad);
+        acc.evals += 1;
+        let sig = RawHeader::layout_region_dribble(62, &[(273, Val::str("0123456789abcdef")), (1000, Val::Int32(vec![77]))], &extras[d[0] as usize]);
+        let main = RawHeader::layout_region_dribble(63, &[(1000, Val::str("n")), (1001, Val::str("1")), (1004, Val::i18n(&["s"]))], &extras[d[1] as usize]);
+        let (x, _) = assemble(&RawLead::new("n"), &sig, 0, &main, PAYLOADS[d[2] as usize]);
+        let case = || json!({"bytes_hex": vlib::hex(&x), "varied": "entries behind the region", "signature_extra": d[0], "main_extra": d[1]});
+        match oracle_roundtrip("region-dribble", &x, i, &case, acc) {
+            Some(p) => {
+                acc.nontrivial += 1;
+                oracle_offsets("region-dribble", &p, i, &case, acc);
+                acc.sample(i, case);
+            }
+            None => acc.viol(vlib::report::Violation::new("region-dribble", "a header with entries behind the region (as rpm itself produces) is rejected", case()).sig("clause", "well-formed-package-rejected").rank(i)),
+        }
+    })
+}
+
 pub fn run_assets(ctx: &Ctx, sub: &str) -> SubReport {
     let mut acc = Acc::new();
     for (k, rel) in ASSETS.iter().enumerate() {
@@ -299,6 +328,7 @@ pub fn sweeps(ctx: &Ctx) -> Vec<Sweep> {
     v.push(run_lead());
     v.push(run_sigpad());
     v.push(run_declared_sizes());
+    v.push(run_dribble());
     v
 }
 
